@@ -1,0 +1,58 @@
+//go:build verif
+
+package vaxis
+
+import "git.sr.ht/~rockorager/vaxis/ansi"
+
+// Hooks for property C03 (input loop, /verif/harness/c03).  Add-only, guarded
+// by the build tag "verif": re-exports of unexported functions and read-only
+// snapshots, no logic.
+
+// VerifC03Handle re-exports handleSequence (runs in the caller's goroutine).
+func (vx *Vaxis) VerifC03Handle(seq ansi.Sequence) { vx.handleSequence(seq) }
+
+// VerifC03ParseMouse re-exports parseMouseEvent
+func VerifC03ParseMouse(seq ansi.CSI) (Mouse, bool) { return parseMouseEvent(seq) }
+
+// VerifC03DecodeKey re-exports decodeKey
+func VerifC03DecodeKey(seq ansi.Sequence) Key { return decodeKey(seq) }
+
+// VerifC03State is a read-only copy of the state handleSequence reads or
+// writes, plus the fill level of the reply channels.
+type VerifC03State struct {
+	PastePending    bool
+	ReqCursorPos    bool
+	ResizeFlag      bool
+	NextSize        Resize
+	UserCursorStyle int
+	TermID          string
+	AppIDLast       string
+	Xtwinops        bool
+	LenSizeDone     int
+	LenColor        int
+	LenFg           int
+	LenBg           int
+	LenQueue        int
+	CapQueue        int
+}
+
+func (vx *Vaxis) VerifC03State() VerifC03State {
+	vx.mu.Lock()
+	defer vx.mu.Unlock()
+	return VerifC03State{
+		PastePending:    vx.pastePending,
+		ReqCursorPos:    atomicLoad(&vx.reqCursorPos),
+		ResizeFlag:      atomicLoad(&vx.resize),
+		NextSize:        vx.nextSize,
+		UserCursorStyle: int(vx.userCursorStyle),
+		TermID:          string(vx.termID),
+		AppIDLast:       string(vx.appIDLast),
+		Xtwinops:        vx.xtwinops,
+		LenSizeDone:     len(vx.chSizeDone),
+		LenColor:        len(vx.chColor),
+		LenFg:           len(vx.chFg),
+		LenBg:           len(vx.chBg),
+		LenQueue:        len(vx.queue),
+		CapQueue:        cap(vx.queue),
+	}
+}
